@@ -114,6 +114,13 @@ func c01Run(c *engine.Ctx) {
 	c01Scalars(c)
 	// boundary-length strings, empty-but-non-nil neighbours, one identity in two properties
 	universe.Scale(func(r universe.Recipe) { c01Case(c, r, "method") })
+	// presentations of IRIs, generic type names, list forms
+	universe.IRIPresentations(func(r universe.Recipe) { c01Case(c, r, "pkg") })
+	for i := range universe.Structs {
+		s := &universe.Structs[i]
+		universe.GenericNames(s, universe.JSON, both)
+		universe.ListForms(s, both)
+	}
 	for i := range universe.Structs {
 		s := &universe.Structs[i]
 		universe.Degenerate(s, universe.JSON, func(r universe.Recipe) { c01Case(c, r, "method") })
